@@ -126,3 +126,7 @@ def run(ctx, rep):
                    "crate-local primitive types reached: one-shot %s, verify %s" % (sorted(t1), sorted(t2)), loc=f.loc())
             rep.sample({"verify": f.path, "roots": [g.path for g in roots], "prims": sorted(t2)})
     rep.floor("verify functions", n, 6)
+    # the incremental verify functions accept the correct authenticator only if the inner hashers'
+    # pending-buffer invariant holds (shared with C08): a full block left pending is mis-finalised
+    from .c08 import buffer_invariants
+    buffer_invariants(rep, prog, "")
